@@ -345,6 +345,7 @@ def oracle(case, res):
     ops = res["ops"]
     prev = obs[0]
     gone = set()           # children that have left the hatchery
+    released_seen, collected = set(), set()
     interfered = set()
     if un(prev["demand"]) != sum(a[3] for a in attrs.values()):
         v.append((None, "initial demand: %s is not the sum of the children's demands" % prev["demand"]))
@@ -367,6 +368,15 @@ def oracle(case, res):
             continue
         if set(o["hatchery"]) & set(o["mortuary"]):
             v.append((None, "partition: child both active and released at step %d: %s" % (step, o)))
+        # a released child stays one of the children for as long as it is alive (the harness keeps every child alive
+        # until a `collect` step drops its last reference): it still drains, and its supply still counts
+        if op is not None and op[0] == "collect":
+            collected.add(op[1])
+        lost = (released_seen - collected) - set(o["mortuary"]) - set(o["hatchery"])
+        if lost:
+            v.append((None, "vanished: released children %s are still alive but no longer among the pool's children at step %d"
+                      % (sorted(lost), step)))
+        released_seen |= set(o["mortuary"])
         back = set(o["hatchery"]) & gone
         if back:
             v.append((None, "revived: released children %s are active again at step %d" % (sorted(back), step)))
